@@ -1,5 +1,7 @@
 \* Not registered: a small configuration with every feature switched on, run once with
-\* `-coverage 1` to show that no action of Next has a zero count (see the report of the build).
+\* `-coverage 1` to show that no action of Next has a zero count.  98,574 distinct states; distinct:generated
+\* per action: Submit 914:82125, Prepare 3840:23072, AppendStart 6030:16032, AppendEnd 14392:34168, Lookup 12309:30768,
+\* EffStart 9897:25276, EffEnd 13336:25276, StopCall 18100:47406, StopReturn 19752:27465.
 SPECIFICATION Spec
 CONSTANTS
   NChans = 1
